@@ -260,7 +260,20 @@ def _vf(V, x):
 
 @register
 class TDSetItem(DictMutator):
+    """d[k] = v stores the validated value ITSELF: `==` between stored values is, for this unit, an arbitrary equivalence
+    relation (two distinct objects may compare equal), so 'an equal value is already there' is no licence to skip the store --
+    the dict on validated items would hold the new object, and the two differ as soon as either object is mutated."""
     qualname = "TraitDict.__setitem__"
+
+    def configure(self, cx, I, ov):
+        DictMutator.configure(self, cx, I, ov)
+        eqv = z3.Function("values_compare_equal", Val, Val, z3.BoolSort())
+        x, y, z = z3.Consts("x!ve y!ve z!ve", Val)
+        cx.axioms += [z3.ForAll([x], eqv(x, x)), z3.ForAll([x, y], eqv(x, y) == eqv(y, x)),
+                      z3.ForAll([x, y, z], z3.Implies(z3.And(eqv(x, y), eqv(y, z)), eqv(x, z)))]
+        cx.val_eq = lambda a, b: eqv(a, b)
+
+    undecided_probe = dict(harness="containers", family="dict_probe", trials=4000)
 
     def args(self, cx, ov, st, I):
         k, v = z3.Const("key", Val), z3.Const("value", Val)
